@@ -681,6 +681,7 @@ func TestReplay(t *testing.T) {
 			}
 			return err
 		},
+		"TestC11MetaSave": replayMetaSave,
 		"TestC11LogAppend": func(raw json.RawMessage) error {
 			var err error
 			for attempt := 0; attempt < 3; attempt++ {
